@@ -14,7 +14,8 @@
 (* Kind = "str": sequences over {1,2} ("a","b"), only =, +=, apply.        *)
 (***************************************************************************)
 EXTENDS Integers, Sequences, FiniteSets
-CONSTANTS Kind, Dom, Tol, One, Deltas, Factors, Divisors, MaxLen
+CONSTANTS Kind, Dom, Tol, One, Deltas, Factors, Divisors, MaxLen,
+          Halves   \* integer kinds only: operands h/2 of another arithmetic type (double) handed to += -= *= /=
 VARIABLES val, subs, notes, ret
 vars == <<val, subs, notes, ret>>
 
@@ -42,6 +43,11 @@ Sub(d) == Kind # "str" /\ d \in Deltas /\ Mutate(val - d)
 Mul(f) == Kind # "str" /\ f \in Factors /\ Mutate(IF Kind = "flt" THEN val * f ELSE val * f)
 Div(f) == /\ Kind # "str" /\ f \in Divisors
           /\ IF Kind = "flt" THEN val % Abs(f) = 0 /\ Mutate(TruncDiv(val, f)) ELSE Mutate(TruncDiv(val, f))
+\* T op= double for an integer T: computed in double, truncated towards zero on the way back (the operand is NOT narrowed first)
+AddF(h) == Kind = "int" /\ h \in Halves /\ Mutate(TruncDiv(2 * val + h, 2))
+SubF(h) == Kind = "int" /\ h \in Halves /\ Mutate(TruncDiv(2 * val - h, 2))
+MulF(h) == Kind = "int" /\ h \in Halves /\ Mutate(TruncDiv(val * h, 2))
+DivF(h) == Kind = "int" /\ h \in Halves /\ h # 0 /\ Mutate(TruncDiv(2 * val, h))
 Concat(s) == Kind = "str" /\ s \in Strs /\ Len(s) >= 1 /\ Mutate(val \o s)
 Apply(f) == /\ f \in {"id", "inc", "zero"}
             /\ Mutate(CASE f = "id" -> val
@@ -60,6 +66,7 @@ Next == \/ \E v \in Values : Assign(v)
         \/ \E d \in Deltas : Add(d) \/ Sub(d)
         \/ \E f \in Factors : Mul(f)
         \/ \E f \in Divisors : Div(f)
+        \/ \E h \in Halves : AddF(h) \/ SubF(h) \/ MulF(h) \/ DivF(h)
         \/ \E s \in Strs : Concat(s)
         \/ \E f \in {"id", "inc", "zero"} : Apply(f)
         \/ PreInc \/ PostInc \/ PreDec \/ PostDec
